@@ -72,6 +72,7 @@ def c10(ctx, res):
     cfg = "MC_C10_quick.cfg" if ctx.quick else "MC_C10_thorough.cfg"
     ctx.gen_replay(res, "upd", "MC_C10.tla", cfg)
     ctx.gen_replay(res, "upd", "MC_C10.tla", "MC_C10_empty.cfg")      # the empty key as a key and as a path segment (a..k, .a, a.)
+    ctx.gen_replay(res, "upd", "MC_C10.tla", "MC_C10_f32.cfg")       # numeric sub-keys against numbers that differ in double precision only (2^24, 2^24 + 1)
     ctx.gen_replay(res, "upd", "MC_C10.tla", "MC_C10_long.cfg", subst=SUBST)    # 36-byte key that begins with a two-byte character, 4.2 KiB values old and new
     # sessions: new-value STRINGS ("k<sep>v") under every history of SetFieldSeparator calls, separators of one and two characters
     ctx.gen_replay(res, "mxj", "Mxj.tla", "Mxj_upd.cfg", procs=4)
@@ -158,6 +159,9 @@ def c18(ctx, res):
     # decoder entry points on a <stream:stream> document in between (the element is returned at its start tag only while the register is on)
     ctx.gen_replay(res, "mxj", "Mxj.tla", "Mxj_xmpp_quick.cfg" if ctx.quick else "Mxj_xmpp.cfg", procs=8)
     ctx.gen_replay(res, "mxj", "Mxj.tla", "Mxj_pfx.cfg", procs=8)      # attribute prefixes of one and two characters: decode, encode, leaf nodes, Elements / Attributes
+    # the escaping switch and the validity check are two options: with the check on, a key that is no XML name is refused by all four
+    # encoders whatever the escaping switch says (escaping family, check mode)
+    ctx.gen_replay(res, "esc", "MC_C05.tla", "MC_C05_quick.cfg", procs=8)
     # tag sequence numbers and simple-values-as-map: documents with a complex root and with a root that holds nothing but text
     ctx.gen_replay(res, "mxj", "Mxj.tla", "Mxj_tagseq.cfg", procs=8)
     # the sequence codec knows no attribute prefix and no case folding: prefixes that a tag may begin with ("_")
@@ -220,6 +224,9 @@ def c03(ctx, res):
     # the bytes are those of the untyped value (MC_C03t!TypeUp)
     ctx.gen_replay(res, "encv", "MC_C03t.tla", "MC_C03t_quick.cfg" if ctx.quick else "MC_C03t_thorough.cfg", procs=8)
     # code -> spec: recorded sessions, Map.Xml() of random JSON-shaped values (depth <= 4) under the session's prefixes / escaping / empty-element syntax
+    # values under encoder-side escaping: every string over the special-character chunks (a markup-heavy value with ]]> among them),
+    # in element, attribute, mixed and list position: exact bytes, well formed, decodes back
+    ctx.gen_replay(res, "esc", "MC_C05.tla", "MC_C05_quick.cfg", procs=8)
     xml_trace(ctx, res, "encv")
     # the repository's own tests, observed: every Map.Xml call they make (wrapped method in a scratch copy) against the encoder specification
     ctx.repo_tests_enc_trace(res)
